@@ -16,6 +16,7 @@
      close {err}                             Close returned
      wcall {f} / wret {f, res}, ccall / cret {err}      level conc: concurrent WriteRTCP calls and Close
      trans {s, u, out} / zero {s, u}         level table
+     rcstep {i, prev, u, state, emitted, target}   level table, informational: the state rateController applies
      inconclusive {why}                      quiescence could not be established: the rest of the trace is skipped
      end *)
 EXTENDS Gcc, Json, IOUtils
@@ -32,8 +33,10 @@ Init == /\ l = 1 /\ cfg = DefaultCfg /\ rec = TRUE /\ x = Fresh(DefaultCfg) /\ c
 Range(f) == {f[i] : i \in DOMAIN f}
 StatKeys == {"lossTargetBitrate", "averageLoss", "delayTargetBitrate", "delayMeasurement", "delayEstimate",
              "delayThreshold", "usage", "state"}
+\* LeakyBucketPacer.SetTargetBitrate stores int(1.5 * rate); before the first publication it holds the initial bitrate
 LeakyOK(e) == \/ e.leaky = -1
-              \/ e.leaky = (IF (IF rec THEN x.pubs = <<>> ELSE x.dlv = EmptyBag) THEN cfg.init ELSE (3 * e.get) \div 2)
+              \/ rec /\ e.leaky = (IF x.pubs = <<>> THEN cfg.init ELSE (3 * e.get) \div 2)
+              \/ ~rec /\ (e.leaky = (3 * e.get) \div 2 \/ (e.leaky = cfg.init /\ e.get = cfg.init))
 
 Accept(e) ==
   CASE e.a \in {"send", "wcall", "ccall", "end", "inconclusive"} -> TRUE
@@ -58,6 +61,12 @@ Accept(e) ==
                        /\ (e.f \in DOMAIN after /\ after[e.f] => e.res = "closed")   \* a call begun after Close returned
     [] e.a = "trans" -> e.out = Trans(e.s, e.u)
     [] e.a = "zero" -> ZeroPair(e.u, e.s)
+    \* informational: does the rate controller follow the table from its previous state?  (no verdict: C16 does not
+    \* state it; the target it computes must be inside its bounds in any case)
+    [] e.a = "rcstep" -> /\ e.target >= 50000 /\ e.target <= 200000
+                         /\ (e.prev = "" \/ e.state = Trans(e.prev, e.u)
+                                \/ PrintT(<<"NOTE", l, "rate controller state", e.state, "after", e.prev, "on", e.u,
+                                            "table says", Trans(e.prev, e.u), "memoryless", Trans("increase", e.u)>>))
     [] OTHER -> FALSE
 
 Step(e) ==
